@@ -138,6 +138,23 @@ class ImageBatch(DataTensor):
             index = kwargs.get("index", args[2] if len(args) > 2 else None)
             if dim is not None and index is not None and dim % ndim == 0:
                 return [grids[0][i] for i in index.tolist()]
+        if func in (
+            torch.permute,
+            Tensor.permute,
+            torch.transpose,
+            Tensor.transpose,
+            torch.swapaxes,
+            Tensor.swapaxes,
+            torch.swapdims,
+            Tensor.swapdims,
+            torch.movedim,
+            Tensor.movedim,
+            torch.moveaxis,
+            Tensor.moveaxis,
+            Tensor.t,
+        ):
+            # Batch dimension may no longer be the first dimension of the result
+            return None
         if kwargs.get("dim", 0) == 0:
             if func == torch.cat:
                 return [g for grid in grids for g in grid]
